@@ -80,7 +80,10 @@ Fixpoint inline_conds (fuel : nat) (frs : list fragdef) (sels : list sel) : res 
       fold_left (fun acc s =>
         l <- acc ;;
         match s with
-        | SInline tc _ _ => Ok (l ++ [tc])
+        | SInline (Some tc) _ _ => Ok (l ++ [Some tc])
+        | SInline None _ sub =>
+            (* no type condition: the fragment applies to the enclosing type; look inside it *)
+            l' <- inline_conds fuel' frs sub ;; Ok (l ++ l')
         | SSpread n _ =>
             match lookup_frag frs n with
             | Some f => l' <- inline_conds fuel' frs (fr_sel f) ;; Ok (l ++ l')
@@ -253,13 +256,10 @@ Definition resolve_step (rec : list sel -> string -> res (list fnode * list stri
           end
       end
   | SInline tc _ sub =>
-      match tc with
-      | None => Err "AttributeError: inline fragment without type condition"
-      | Some tc =>
-          match inline_root_type S tc root with
-          | Some r => q <- rec sub r ;; Ok (fields ++ fst q, mixins ++ snd q)
-          | None => Ok (fields, mixins)
-          end
+      (* a missing type condition means the enclosing type *)
+      match inline_root_type S (match tc with Some tc => tc | None => root end) root with
+      | Some r => q <- rec sub r ;; Ok (fields ++ fst q, mixins ++ snd q)
+      | None => Ok (fields, mixins)
       end
   end.
 
@@ -269,6 +269,29 @@ Fixpoint resolve (fuel : nat) (S : schema) (frs : list fragdef) (sels : list sel
   | O => Err "fuel"
   | S fuel' => fold_left (resolve_step (resolve fuel' S frs) S frs root) sels (Ok ([], []))
   end.
+
+(* _get_fragment_bases: the fragments a fragment class inherits from, transitively *)
+Definition append_bases (rec : string -> res (list string)) (acc : res (list string)) (b : string)
+  : res (list string) :=
+  l <- acc ;; l' <- rec b ;; Ok (l ++ l').
+
+Fixpoint fragment_bases (fuel : nat) (S : schema) (frs : list fragdef) (name : string) : res (list string) :=
+  match fuel with
+  | O => Err "fuel"
+  | S fuel' =>
+      match lookup_frag frs name with
+      | None => Err "KeyError: fragment"
+      | Some f =>
+          q <- resolve fuel' S frs (fr_sel f) (fr_on f) ;;
+          fold_left (append_bases (fragment_bases fuel' S frs)) (snd q) (Ok (snd q))
+      end
+  end.
+
+(* _remove_inherited_fragments *)
+Definition remove_inherited (fuel : nat) (S : schema) (frs : list fragdef) (mixins : list string)
+  : res (list string) :=
+  inh <- fold_left (append_bases (fragment_bases fuel S frs)) mixins (Ok []) ;;
+  Ok (filter (fun f => negb (mem f inh)) mixins).
 
 (* _get_typename_values for the class generated for related type tn *)
 Definition typename_values (S : schema) (rel : list related) (tn : string) : list string :=
@@ -320,10 +343,11 @@ Definition add_typename_field (add_typename : bool) (fields0 : list fnode) : lis
   if add_typename && negb (existsb (fun f => String.eqb (fn_name f) "__typename") fields0)
   then typename_node :: fields0 else fields0.
 
-Definition class_bases (mixins extra_bases : list string) : list string :=
+(* mixins: the fragments used as mixins; kept: those not already inherited through another one *)
+Definition class_bases (mixins kept extra_bases : list string) : list string :=
   (match mixins with
    | [] => ["BaseModel"]
-   | _ => map pascal_s (sorted_set mixins)
+   | _ => map pascal_s (sorted_set kept)
    end) ++ extra_bases.
 
 (* annotation of one field: (annotation, context, is the typename literal) *)
@@ -401,7 +425,8 @@ Definition parse_body (rec : ptd_fun) (C : cfg) (S : schema) (frs : list fragdef
     rf <- resolve fuel' S frs sels type_name ;;
     let '(fields0, mixins) := rf in
     let fields := add_typename_field add_typename fields0 in
-    let bases := class_bases mixins extra_bases in
+    kept <- remove_inherited fuel' S frs mixins ;;
+    let bases := class_bases mixins kept extra_bases in
     r <- fold_left (parse_field_step rec C S frs fuel' class_name type_name tvalues) fields
                    (Ok ([], [], pub, false)) ;;
     let '(pfs, extra, pub, sk) := r in
